@@ -181,39 +181,10 @@ def post_go(ctx, cases, obs):
             if c not in bad:
                 bad.append(c)
     # ---- SAM form of the same pairwise relations
-    stage, plan = [], []
-    for c in cases:
+    def get_pairs(c):
         pairs = c["info"].get("pairs")
-        if not pairs or obs[c["id"]]["status"] != "ok":
-            continue
-        genome = c["info"]["genome"]
-        recs = []
-        for k, (ref, que) in enumerate(pairs):
-            recs.append({"name": "q%d" % k, "flag": 0, "pos": 0, "cigar": cigar_of(ref, que), "seq": que.replace("-", "").upper().replace("?", "N")})
-        samb = samgen.render_sam("REF", len(genome), recs)
-        refb = gen.layout(ctx.rng, [("REF", genome)], "plain")
-        stage.append({"id": len(stage), "op": "samvariants", "sam": cm.b64(samb), "ref": cm.b64(refb), "anno": cm.b64(c["info"]["annob"]),
-                      "suffix": c["info"]["suffix"], "ref_from_file": True, "start": -1, "end": -1, "append_snps": True, "aggregate": False, "threads": 1})
-        plan.append((c, samb))
-    if stage:
-        res = cm.go_run(stage, ctx.log)
-        for k, (c, samb) in enumerate(plan):
-            o = res[k]
-            msa_rows = dict(anno.parse_rows(cm.unb64(obs[c["id"]]["out"]))[1])
-            probs = []
-            if o["status"] != "ok":
-                probs.append("sam variants refused the SAM form of the same alignment: %s %s" % (o["status"], o.get("err", "")[:200]))
-            else:
-                for name, muts in anno.parse_rows(cm.unb64(o["out"]))[1]:
-                    if msa_rows.get(name) != muts:
-                        probs.append("%s: SAM form reports %r, FASTA-MSA form reports %r" % (name, muts, msa_rows.get(name)))
-            if probs:
-                c["sample"].setdefault("oracle_problems", [])
-                c["sample"]["oracle_problems"] += probs[:3]
-                c["sample"]["sam_form"] = samb.decode()
-                if c not in bad:
-                    bad.append(c)
-        _state["sam_form_runs"] = len(stage)
+        return [("q%d" % k, ref, que.replace("?", "N")) for k, (ref, que) in enumerate(pairs)] if pairs else None
+    _state["sam_form_runs"] = vcommon.sam_form_stage(ctx, cm, gen, samgen, anno, cases, obs, bad, get_pairs)
     return bad
 
 
